@@ -127,7 +127,7 @@ func PodFromCoreObject(p *corev1.Pod) (*Pod, error) {
 
 	for refIndex := range p.ObjectMeta.OwnerReferences {
 		ownerRef := p.ObjectMeta.OwnerReferences[refIndex]
-		if *ownerRef.Controller {
+		if ownerRef.Controller != nil && *ownerRef.Controller {
 			if addOwner := addPodOwner(&ownerRef, pr); addOwner {
 				pr.Owner.Variant = variantFromLabelsMap(p.Labels)
 			}
@@ -198,7 +198,9 @@ func PodsFromWorkloadObject(workload interface{}, kind string) ([]*Pod, error) {
 		replicas = getReplicas(obj.Spec.Replicas)
 		workloadName = obj.Name
 		workloadNamespace = obj.Namespace
-		podTemplate = *obj.Spec.Template
+		if obj.Spec.Template != nil {
+			podTemplate = *obj.Spec.Template
+		}
 		APIVersion = obj.APIVersion
 	case parser.CronJob:
 		obj := workload.(*batchv1.CronJob)
